@@ -534,7 +534,8 @@ class C13(Check):
             for n_, (x_, y_) in enumerate(zip(a_, b_)):
                 if isinstance(x_, str) or isinstance(y_, str):
                     break
-                if _touches(off, holder["services"], x_[3], x_[0]):
+                # (the request may have been evaluated in the default session instead, if the inactivity timer fired first)
+                if _touches(off, holder["services"], x_[3], x_[0]) or _touches(off, holder["services"], 1, x_[0]):
                     bump(res["probes"], "twin_runs_compared_up_to_the_first_request_of_a_disabled_rule")
                     break
                 if x_[1:3] != y_[1:3]:
